@@ -194,6 +194,10 @@ pub mod stubs {
 	pub fn system_time_now() -> std::time::SystemTime {
 		std::time::UNIX_EPOCH
 	}
+	pub fn instant_now() -> std::time::Instant {
+		// Instant is { secs: i64, nanos: u32 } on this platform; the all-zero value is valid
+		unsafe { core::mem::zeroed() }
+	}
 
 	// ---- E14: zeroize's compiler barrier is inline asm with no data effect
 	pub fn optimization_barrier<T: ?Sized>(_v: &T) {}
@@ -462,6 +466,7 @@ macro_rules! proof {
 	( @acc [clock, $($g:ident,)*] [$($a:tt)*] $($rest:tt)* ) => {
 		$crate::proof! { @acc [$($g,)*] [$($a)*
 			#[cfg_attr(kani, kani::stub(std::time::SystemTime::now, crate::env::stubs::system_time_now))]
+			#[cfg_attr(kani, kani::stub(std::time::Instant::now, crate::env::stubs::instant_now))]
 		] $($rest)* }
 	};
 	( @acc [zeroize, $($g:ident,)*] [$($a:tt)*] $($rest:tt)* ) => {
